@@ -23,7 +23,7 @@ def gen(rng, tier, index):
         return p08_hist.gen(rng, tier, index // 4)
     index = index - index // 4 - 1 if index % 4 == 3 else index - index // 4
     if index % 8 < 5:
-        scn = gen_lock.gen_wstep(rng, tier, index // 8 * 5 + index % 8)
+        scn = gen_lock.gen_wstep(rng, tier, index // 8 * 5 + index % 8, align=rng.random() < 0.5)
         # hostile stores: aim pointers at the ROM / RAM boundary more often than the general generator does
         if rng.random() < 0.5:
             regs = scn['regs']
